@@ -34,8 +34,9 @@ GENS = ["gen_locks_ldm"]
 TRUSTED_BASE = [
     "Coq 8.16.1 kernel (coqc); vm_compute for the obligations on the regenerated lock summary; no native_compute",
     "translator tools/gen_locks_ldm.py (Python ast -> Gen/LdmLockSummary.v; every method of DictionaryDataBase and of the "
-    "Thread and Reactive maintenance / service classes, resolved through the dynamic class; fails closed on unknown "
-    "constructs); it flattens control flow in source order, which over-approximates the accesses made under each lock",
+    "Thread and Reactive maintenance / service classes, resolved through the dynamic class, and every IF.LDM.3 / IF.LDM.4 "
+    "call in front of the Thread/Thread and Reactive/Reactive configurations; fails closed on unknown constructs); it "
+    "flattens control flow in source order, which over-approximates the accesses made under each lock",
     "extraction of LdmConc.dispatch with ExtrOcamlBasic only (no Extract Constant / Extract Inductive of our own); OCaml "
     "driver ocaml/driver_body.ml",
     "mechanised (Base/Atomic.v, for every write function of the reads): a closed critical section computes what its body "
@@ -56,7 +57,8 @@ ASSUMPTIONS = [
     "schedules are enumerated systematically up to 2 preemptions (bounded number of runs per scenario) and then sampled",
 ]
 EXPLANATION = ("PARTIAL. theorems: lock discipline / single-section database methods / ranked lock order of the regenerated LDM "
-               "lock summary (obligations), mutual exclusion, no conflicting access and deadlock freedom for any number of "
+               "lock summary (obligations; classes and IF.LDM.3/4 calls, whose check-then-act calls are one state-lock section), "
+               "mutual exclusion, no conflicting access and deadlock freedom for any number of "
                "threads and any interleaving; for every order of atomic operations: identifiers unique, fresh, never reused; no "
                "object lost, duplicated or resurrected; at most one delete succeeds; registries decided by the last operation; "
                "subscriptions neither lost nor resurrected.  Run time: linearizability of the real LDM against the extracted "
@@ -698,11 +700,13 @@ KF_ADD_DEREG = "add_overlaps_provider_deregistration"
 
 
 def relax_adds_overlapping_deregistration(calls):
-    """KF-C16-2: IF.LDM.3 add_provider_data reads the provider registry and inserts afterwards, without holding the
-    service lock in between.  -> the calls in which every add that answered with an identifier AND overlapped (in real
-    time) a deregistration of its provider is specified as the unconditional insertion of the database (code 1), or None
-    when there is no such add.  Nothing else is relaxed: responses, identifiers, store and registries must still be
-    explained by one sequential order."""
+    """Diagnosis of a not linearizable history (former finding KF-C16-2, repaired by c931635: IF.LDM.3 add_provider_data
+    read the provider registry and inserted afterwards, without holding the service lock in between; it is one section
+    of the state lock now - obligation C16_interface_check_then_act_is_one_section - and the class below is a VIOLATION).
+    -> the calls in which every add that answered with an identifier AND overlapped (in real time) a deregistration of
+    its provider is specified as the unconditional insertion of the database (code 1), or None when there is no such
+    add.  Nothing else is relaxed: responses, identifiers, store and registries must still be explained by one
+    sequential order."""
     deregs = [c for c in calls if c["op"][0] == "pdereg" and c["op"][1] == PROV]
     out, changed = [], False
     for c in calls:
@@ -1275,6 +1279,15 @@ MULTI = [
 ]
 
 
+# witnesses of repaired findings that no pair / multi scenario contains, kept as regression inputs:
+# (name, programs, windows (complete single-hand-over sweeps), runs of the bounded search, variants of the quick tier)
+REGRESSIONS = [
+    # KF-C16-2 (c931635): the deregistration of the provider and a query of the same thread fall between the registry
+    # check and the insertion of an add - the add answered with an identifier and the object appeared after the query
+    ("kf_add_pdereg_query", [["add"], ["pdereg", "query"]], [(0, 1)], 4, ("Thread",)),
+]
+
+
 # the second consumer is not registered and has no subscription when the run starts
 SETUP_ONE_CONSUMER = [o for o in SETUP_BASE if o not in (("creg", CONS[1]), ("sub", 51, CONS[1]))]
 MULTI_ONE_CONSUMER = [
@@ -1383,6 +1396,10 @@ def run(ctx):
                 run_scenario(ctx, lin, w["scenario"], w.get("variant", "Reactive"), w["programs"], 2,
                              w.get("max_runs", 400), 0, setup=[tuple(o) for o in w["setup"]] if w.get("setup") else None,
                              population=w.get("population"), windows=[tuple(x) for x in w.get("windows", [])])
+        for name, progs, wins, runs, quick_variants in REGRESSIONS:
+            for variant in ("Reactive", "Thread"):
+                if not quick or variant in quick_variants:
+                    run_scenario(ctx, lin, name, variant, progs, 2, runs if quick else 60, 0 if quick else 20, windows=wins)
         sequential_cases(ctx, lin, 60 if quick else 600)
         for variant in ("Reactive", "Thread"):
             for name, progs in pair_plan():
